@@ -7,7 +7,9 @@ import (
 	"encoding/json"
 	"fmt"
 	"hash/fnv"
+	"runtime/debug"
 	"sort"
+	"strings"
 
 	"verif/sim/tape"
 )
@@ -202,7 +204,7 @@ func RunTapeOrScript(p *Property, t *tape.Tape, script []json.RawMessage, tier s
 	c.Script = script
 	defer func() {
 		if r := recover(); r != nil {
-			c.Fail("no-panic", ClassifyPanic(fmt.Sprint(r)), "panic on the simulation goroutine: %v", r)
+			c.Fail("no-panic", ClassifyPanic(fmt.Sprint(r)), "panic on the simulation goroutine: %v\n%s", r, trimStack(debug.Stack()))
 			res = c.Finish()
 		}
 	}()
@@ -231,4 +233,19 @@ func ClassifyPanic(s string) string {
 		s = s[:80]
 	}
 	return s
+}
+
+// trimStack keeps the frames of the code under test.
+func trimStack(b []byte) string {
+	var out []string
+	lines := strings.Split(string(b), "\n")
+	for i := 0; i+1 < len(lines); i++ {
+		if strings.Contains(lines[i], "tokenized/bitcoin_reader") || strings.Contains(lines[i], "tokenized/pkg") {
+			out = append(out, strings.TrimSpace(lines[i])+" "+strings.TrimSpace(lines[i+1]))
+		}
+		if len(out) >= 8 {
+			break
+		}
+	}
+	return strings.Join(out, "\n")
 }
